@@ -83,6 +83,52 @@ add("C17", "vh-rt", True, "exploration",
     "Per session: response indexes 0,1,2.., exactly one end message carrying the right count, every sent command is committed at the responder, add_commands of each response succeeds in order, requester graph == previous + sent, termination within a response bound; incl. responses that stop mid-segment and retries after BufferTooSmall.",
     "Termination is decided by a bound of 5000 responses per session (far above any sound session).")
 
+
+add("C12", "vh-store", True, "exploration",
+    "model-based stateful property testing of the linear storage API against a flat-map oracle",
+    "Generated storage histories (inserts/deletes over prefix-related compound keys, add_command, write/commit, perspectives opened at heads and mid-segment, braid and merge perspectives, reopen) on the in-memory and file back ends; every exact and prefix query is compared with a flat map at every stored fact index, mid-segment reconstruction and live/merge/braid perspective, incl. chains past the compaction depth.",
+    "Single-head commits only (multi-head braided caches are C03/C04); writes are always followed by add_command before a perspective is written; histories bounded at about 150 ops; file back end on tmpfs.")
+add("C13", "vh-store", True, "exploration",
+    "model-based property testing of checkpoint/revert on the four kinds of graph perspective and of ephemeral sessions driven by a scripted policy",
+    "Generated interleavings of writes, commands, checkpoints and reverts compared with model snapshots (facts, head, command membership, stored segment), plus session actions and receives whose rules fail after writing.",
+    "A checkpoint is used at most once; one listed finding (checkpoint taken with pending writes) is tolerated by its exact signature in the any-checkpoint part while the clean part never generates that shape.")
+add("C14", "vh-rt", True, "exploration",
+    "stateful model-based property testing of sessions (two sessions over a committed single/multi-head graph vs an overlay map model)",
+    "1-25 generated ops on two sessions (actions with inserts, deletes of committed facts, order-sensitive writes, guards, poison; receives of other sessions' messages, fresh commands and garbage; reopen): after every op both sessions' full prefix scans (ascending order) must equal committed facts overlaid with their own writes, verdicts (exact queries) must match, failed ops leave the view unchanged, and the graph's heads/facts/committed ids never change.",
+    "Reads inside a session are made by the policy (guards = exact queries, a publish-free action dumps the prefix scan). Held on the sequences explored.")
+add("C18", "vh-store", True, "exploration",
+    "in-process fuzzing with structured oracles: arbitrary bytes, mutation of messages harvested from real sync sessions, field-by-field crafted messages with an exact slicing/session/sequence model",
+    "Every decode, receive and poll entry point is driven with arbitrary, mutated and crafted messages: no panic, all returned command slices inside the received buffer (pointer range), commands accepted only for the requester's session and next index, foreign sessions refused by requester and responder.",
+    "Sampled input space; responder exercised over one fixed 140-command graph; postcard and TestPolicy trusted; no coverage-guided fuzzer (in-process campaign instead).")
+add("C19", "vh-rt", True, "exploration",
+    "metamorphic property testing over generated replica pairs (delivered subsets + actions)",
+    "Pairs of replicas of one world (equal, nested, divergent subsets, merge-as-head shapes, optional actions): should_sync_on_hello(peer hello) == false must imply that the peer's walked committed ids are a subset of the own ones, in both directions; equal head sets give equal hello heads; a replica without the graph always syncs.",
+    "One listed finding (peer holds only materialized merge commands the replica lacks; same synthetic hello head) is tolerated by exact signature; any non-merge command lacking is a violation.")
+add("C20", "vh-rt", True, "exploration",
+    "model-based property testing of PeerCache against an antichain model",
+    "Generated add_command sequences with committed, uncommitted-but-flushed, undelivered and fabricated commands on bushy graphs; after every call: at most ten entries, all committed locally, pairwise non-ancestor, and contents equal to an antichain model (ignore not-committed and ancestors-or-equal, remove exactly the ancestors of the new entry).",
+    "When the cache is full a further incomparable command is dropped (the statement only bounds the size).")
+add("C22", "vh-pol", True, "exploration",
+    "differential testing of generated typed policy programs (own AST printed to source: parser, compiler and VM in the path) against a big-step reference interpreter, with i64 boundary inputs",
+    "Programs over bool/int/string/id/enum/struct/option/result with let, blocks, if, match (bindings, alternations, default), comparisons, logic, coalescing, checked and saturating arithmetic, field access, substruct, cast, calls, check, todo; exit reason, value and foreign-call trace of the VM must equal the interpreter for every function on 3 argument vectors.",
+    "Trusts the harness interpreter as the language semantics (no spec in the repo); bytes, unit and fact queries not covered here; VM stack exhaustion skipped and counted.")
+add("C23", "vh-pol", True, "exploration",
+    "differential testing with planted poison behind constant-by-construction guards (same generator as C22)",
+    "Panics, failing checks, early returns and logged foreign calls are planted in the right operands of &&, ||, or and in untaken if/match arms and statement branches (8 position classes); result and foreign-call log must equal the model and no poison call may appear in the log.",
+    "Guards are constant by construction of the generator; same interpreter trust as C22.")
+add("C24", "vh-pol", True, "exploration",
+    "mutation-based property testing: generated well-typed programs plus single type-perturbing mutations; accepted programs are executed at every entry point; oracle on the kind of MachineError",
+    "About 20 mutation kinds (wrong-typed subexpressions, dropped/added call or recall arguments, shadowing, struct literal field changes, binding patterns in odd places, swapped statements, fact literal changes ...); programs the compiler rejects are dropped; accepted ones must end normally, with a check failure, a panic or an IO/FFI error, never with a type mismatch, bad jump, stack underflow, undefined/redefined variable or unknown struct member.",
+    "InvalidFact is counted as an I/O error; inputs are type-conformed by the harness; sound only for the constructs generated.")
+add("C28", "vh-pol", True, "exploration",
+    "round-trip and metamorphic property testing of compiled modules (compile twice; cbor and rkyv round trips; machine equality; re-execution with trace comparison)",
+    "Each generated policy is compiled twice (equal Modules), round-tripped through ciborium and rkyv, loaded into machines that must be equal, and every function, command and action is re-run on each machine with identical end, stack, foreign-call trace, I/O events and final facts.",
+    "ciborium and rkyv are the serialized forms of a Module (serde_json/postcard cannot encode one); determinism checked within one process.")
+add("C30", "vh-pol", True, "exploration",
+    "property testing of generated command policies by single-stepping the VM with a recording MachineIO",
+    "Generated command policies with finish blocks, finish functions and recall blocks, incl. deliberately misplaced finish-only statements (must be rejected by the compiler): no Create/Update/Delete/Emit executes before a finish marker, Panic => no I/O event and unchanged facts, Check exit => a recall ran and every effect is recalled, Normal exit => no recalled effect.",
+    "In this language version a Check exit is reachable only through recall; runs ending in I/O errors are constrained only by 'no write before a finish marker'.")
+
 # not built yet: crate assignment only
 add("C01", "vh-rt", True, "exploration",
     'metamorphic + model-based property testing (proptest worlds, k delivery scripts, reference braid model)',
